@@ -494,4 +494,52 @@ theorem commonSnapshot_suffix (a b s : List Nat) (hs : s ≠ [])
     · simpa [List.head?_reverse] using hq
 
 
+
+/-! ### a responder that changes while it streams -/
+
+theorem scanC_filter (ic rm : Nat → Bool) (max : Nat) (l : List SChange) :
+    ∀ (cur : Nat) (b : List SChange) (h : List Nat),
+      (scanC ic rm max l cur b h).1 = (scan rm max (l.filter (fun c => ic c.id)) cur b h).1 ∧
+      (scanC ic rm max l cur b h).2.filter (fun c => ic c.id) = (scan rm max (l.filter (fun c => ic c.id)) cur b h).2 := by
+  induction l with
+  | nil => intro cur b h; simp [scanC, scan]
+  | cons c rest ih =>
+    intro cur b h
+    cases hic : ic c.id
+    · have : scanC ic rm max (c :: rest) cur b h = scanC ic rm max rest cur b h := by
+        simp [scanC, hic]
+      rw [this, List.filter_cons]; simp only [hic, Bool.false_eq_true, if_false]
+      exact ih cur b h
+    · rw [List.filter_cons]; simp only [hic, if_true]
+      unfold scanC scan
+      simp only [hic, Bool.not_true, Bool.false_eq_true, if_false]
+      split
+      · exact ih _ _ _
+      · split
+        · refine ⟨rfl, ?_⟩
+          simp [hic]
+        · exact ih _ _ _
+
+/-- **interleaving is invisible**: whatever foreign changes get stored between the calls, the batches are those of
+the quiescent loader on the cached sequence -/
+theorem batchesI_eq (ic rm : Nat → Bool) (max : Nat) (ins : Nat → List SChange → List SChange)
+    (hins : ∀ i l, (ins i l).filter (fun c => ic c.id) = l.filter (fun c => ic c.id)) :
+    ∀ (f i : Nat) (l : List SChange),
+      batchesI ic rm max ins f i l = batches rm max f (l.filter (fun c => ic c.id)) := by
+  intro f
+  induction f with
+  | zero => intro i l; rfl
+  | succ f ih =>
+    intro i l
+    unfold batchesI batches
+    simp only
+    have h := scanC_filter ic rm max (ins i l) 0 [] []
+    rw [hins i l] at h
+    unfold nextBatch
+    rw [h.1]
+    split
+    · rfl
+    · rw [ih (i + 1) _, h.2]
+
+
 end AnySync.Tree
